@@ -56,9 +56,13 @@ def next_token(text, prev=None):
     """
     while text.hasNext():
         for name, f in tokenizers:
+            start = text.position
             current_token = f(text, prev=prev)
             if current_token is not None:
                 return current_token
+            if text.position != start:
+                # characters were skipped without a token: start over
+                break
 
 
 @to_buffer()
